@@ -132,11 +132,27 @@ pub fn with_env<T: Send + 'static>(
     env_override: bool,
     f: impl FnOnce() -> T + Send + 'static,
 ) -> Result<(T, u64, Vec<String>), String> {
+    let h = spawn_env(entropy, env_override, None, f)?;
+    h.join().map_err(|p| crate::panic_text(&p))
+}
+
+pub type ParkPair = (std::sync::mpsc::Sender<()>, std::sync::mpsc::Receiver<()>);
+
+/// the spawning half of `with_env`; `park` installs the interleaving channel pair (see simreader::PARK)
+pub fn spawn_env<T: Send + 'static>(
+    entropy: u128,
+    env_override: bool,
+    park: Option<ParkPair>,
+    f: impl FnOnce() -> T + Send + 'static,
+) -> Result<std::thread::JoinHandle<(T, u64, Vec<String>)>, String> {
     let h = std::thread::Builder::new()
         .name("replica".into())
         .spawn(move || {
             ENTROPY.with(|e| e.set(Some(entropy)));
             ENV_OVERRIDE.with(|o| o.set(env_override));
+            if let Some(p) = park {
+                crate::simreader::PARK.with(|c| *c.borrow_mut() = Some(p));
+            }
             // heap perturbation: a replica-specific pattern of live allocations, so that twins with different
             // entropy also see different allocation addresses (not controlled, only varied; C05 names them)
             let mut pad: Vec<Vec<u8>> = Vec::new();
@@ -153,7 +169,7 @@ pub fn with_env<T: Send + 'static>(
             (r, calls, env_seen())
         })
         .map_err(|e| format!("spawn failed: {e}"))?;
-    h.join().map_err(|p| crate::panic_text(&p))
+    Ok(h)
 }
 
 /// Seam-liveness canary: equal entropy ⇒ identical HashMap iteration order; over 16 entropies at least
